@@ -581,6 +581,15 @@ func genHopeless(r *rng, c genCfg) *scenario {
 		dead.Sub = []string{"pkg%2FMessage", "100%d", "%s"}[r.intn(3)]
 	}
 	t.Ins = append(t.Ins, dead)
+	if dead.Name == "" && t.Form != "pos" && r.chance(1, 3) {
+		// a second underivable type-only parameter of the same type that differs in its subtype only: both are missing,
+		// both must be listed
+		sub2 := []string{"foo", "bar", dead.Sub + "x"}[r.intn(3)]
+		if sub2 == dead.Sub {
+			sub2 += "x"
+		}
+		t.Ins = append(t.Ins, lab{Ty: 9, Sub: sub2})
+	}
 	if (t.Form == "struct" || t.Form == "ptr") && r.chance(1, 5) {
 		// a further parameter with an exactly matching value whose name is not ASCII: it must never be listed
 		// (declared through a struct tag: the model's case folding is ASCII only, so no form that upper-cases names)
